@@ -1,9 +1,7 @@
 //! Throw-away probes (`jv scratch`), not part of any check.
 pub fn run() {
-    use jiff::{Zoned, Timestamp};
-    for (f, s) in [("%s %z", "1720084029 -0400"), ("%s %z", "1720084029 +0000"), ("%s%.f %z", "-62167201438 -045602"), ("%s %z", "-62167201438 -0456"), ("%s %z","-1 -0400"), ("%s %z","-100000 -0400"), ("%s %z","100000 -0400"), ("%s %:z", "-62167201438 -04:56:02"), ("%s %Q", "-62167201438 America/New_York")] {
-        let z = Zoned::strptime(f, s);
-        let t = Timestamp::strptime(f, s);
-        println!("{f:?} {s:?} -> zoned {:?} ts {:?}", z.as_ref().map(|z| (z.to_string(), z.timestamp().as_second())), t.as_ref().map(|t| t.as_second()));
+    for s in ["EST5EDT,M3.2.0,M11.1.0", "IST-1GMT0,M10.5.0,M3.5.0/1", "<+1030>-10:30<+11>-11,M10.1.0,M4.1.0", "XXX3:12:34YYY1:45:56,J60/1:02:03,J300/4:05:06", "AAA-5:45BBB-6:15,70/3,280/1:30", "UTC0", "CET-1CEST,M3.5.0,M10.5.0/3"] {
+        let tz = jiff::tz::TimeZone::posix(s).unwrap();
+        println!("{s} => debug {:?} | alt {:#?} | iana {:?}", tz, tz, tz.iana_name());
     }
 }
